@@ -77,6 +77,10 @@ func normNums(s string) string {
 	toks := strings.Split(s, " ")
 	for i, tk := range toks {
 		p, c, q := splitDeco(tk)
+		if len(c) > 1 && c[0] == 'b' && plainInt(c[1:]) { // an integer kept as text denotes that integer
+			toks[i] = p + "i" + strings.TrimLeft(strings.TrimPrefix(c[1:], "+"), "") + q
+			continue
+		}
 		if len(c) > 1 && c[0] == 'd' {
 			if f, err := strconv.ParseFloat(c[1:], 64); err == nil && f == float64(int64(f)) && f > -9e15 && f < 9e15 {
 				toks[i] = p + "i" + strconv.FormatInt(int64(f), 10) + q
